@@ -286,6 +286,10 @@ func checkCallbackPaths(r *Run, rc *RuleCtx, m *clientModel, k *keyer) {
 			}
 			if ifaceCallOnField(c2, m.Agent, "Start") {
 				agentCall = c2
+				if st&regBit == 0 && !repH[in] {
+					repH[in] = true
+					rc.ViolationPath(fn, instrPos(in), "agent armed before the client table", "the agent transaction is started while the transaction is not (yet) in the client table: a response processed in that window is dropped as unknown and the transaction is orphaned (no completion, no timeout, no closed event)", c.Witness(fn, in))
+				}
 				return st | agentOK, false
 			}
 			if ifaceCallOnField(c2, m.Conn, "Write") {
